@@ -23,8 +23,8 @@ RULE = ("every DEL expression x single parameter rows: net of 1024 (thorough 409
 ASSUMPTIONS = ["torch's generator is uniform on [0,1) (the seam replaces it by an equidistributed net; what is decided is the image of that net)",
                "reference measure shares by midpoint quadrature of tpmc/ref/geom.py membership",
                "thresholds on the total-variation distance are calibrated on known-correct laws with a factor >= 2 margin and stated in BOUNDS"]
-BOUNDS = {"quick": {"net": 4096, "tv_uniform": 0.05, "tv_boundary": 0.06, "tv_grid": 0.2, "tv_gauss": 0.06, "lhs_n": [1, 2, 3, 4]},
-          "thorough": {"net": 8192, "tv_uniform": 0.04, "tv_boundary": 0.05, "tv_grid": 0.2, "tv_gauss": 0.05, "lhs_n": [1, 2, 3, 4]}}
+BOUNDS = {"quick": {"net": 4096, "tv_uniform": 0.05, "tv_boundary": 0.06, "tv_grid": 0.2, "tv_bgrid": 0.12, "tv_gauss": 0.06, "lhs_n": [1, 2, 3, 4]},
+          "thorough": {"net": 8192, "tv_uniform": 0.04, "tv_boundary": 0.05, "tv_grid": 0.2, "tv_bgrid": 0.12, "tv_gauss": 0.05, "lhs_n": [1, 2, 3, 4]}}
 ITEM_LIMIT = {"quick": 600, "thorough": 3600}
 
 
@@ -36,6 +36,14 @@ def items(tier):
         if not has_kind(a, ("translate", "rotate")) or True:
             out.append({"name": "uniform|" + G.show(L.B(a)), "ast": L.B(a), "law": "uniform", "tier": tier})
         out.append({"name": "grid|" + G.show(a), "ast": a, "law": "grid", "tier": tier})
+        if not G.has_kind_prod(a):
+            out.append({"name": "grid|" + G.show(L.B(a)), "ast": L.B(a), "law": "bgrid", "tier": tier})
+        if a["k"] in ("union", "cut", "inter"):
+            # the same law when the NUMBER of points comes from a density (the operands' point counts are then computed
+            # from their volumes one by one)
+            out.append({"name": "uniform-by-density|" + G.show(a), "ast": a, "law": "uniform", "bydensity": True, "tier": tier})
+        if G.free_vars(a) and not has_kind(a, ("union", "cut", "inter")):
+            out.append({"name": "grid-rows|" + G.show(a), "ast": a, "law": "gridrows", "tier": tier})
     for a in L.booleans2(tier) + L.booleans1(tier):
         if not G.free_vars(a):
             out.append({"name": "uniform-exactlen|" + G.show(L.B(a)), "ast": L.B(a), "law": "uniform", "exactlen": True, "tier": tier})
@@ -180,6 +188,12 @@ def run_item(item):
                     Dx.set_volume(true_len)
                     return Dx.sample_random_uniform(n=N, params=prm1)
                 S = sample(mk)
+            elif item.get("bydensity"):
+                def mk_d():
+                    Dx = Bd.build_tp(a)
+                    v = float(torch.as_tensor(Dx.volume(prm1) if th else Dx.volume()).reshape(-1)[0])
+                    return Dx.sample_random_uniform(d=N / v, params=prm1)
+                S = sample(mk_d)
             else:
                 S = sample(lambda: Bd.build_tp(a).sample_random_uniform(n=N, params=prm1))
             if S is None or len(S) == 0 or S.as_tensor.dim() != 2:
@@ -209,7 +223,7 @@ def run_item(item):
             res.setdefault("tvlist", []).append((round(d, 4), name, str(th)))
             if d > thr:
                 worst = int(np.argmax(np.abs(emp - shares)))
-                sig = _law_sig(a) + ("-exact-length" if item.get("exactlen") else "")
+                sig = _law_sig(a) + ("-exact-length" if item.get("exactlen") else "") + ("|by-density" if item.get("bydensity") else "")
                 key = "C11|nonuniform|%s" % sig if sig in FAMILIES else "C11|nonuniform|%s|%s" % (kind, sig)
                 if d > SEVERE:
                     key += "|severe"
@@ -241,6 +255,57 @@ def run_item(item):
                              n, th, d, m, D, bnd["tv_grid"], worst, emp[worst], shares[worst]))
                 elif (shares > 0).sum() >= 4:
                     res["outcomes"].append(st + "|n=%d" % n)
+        elif law == "bgrid":
+            # grids on boundaries: evenly spread with respect to the boundary measure
+            for n in (100, 400):
+                S = sample(lambda: Bd.build_tp(a).sample_grid(n=n, params=prm1))
+                if S is None or len(S) == 0 or S.as_tensor.dim() != 2:
+                    continue
+                pts = np.concatenate([Bd.to_vals(S)[v] for v in order], 1)
+                res["evals"] += len(pts)
+                m = {1: 8, 2: 4}.get(D, 2)
+                shares = boundary_shares(a["a"], th, pbox, m)
+                if (shares > 0).sum() < 2:
+                    continue
+                d, emp = tv(pts, pbox, m, shares)
+                tvs.append(round(d, 4))
+                res.setdefault("tvlist", []).append((round(d, 4), name + "|n=%d" % n, str(th)))
+                if d > bnd["tv_bgrid"]:
+                    worst = int(np.argmax(np.abs(emp - shares)))
+                    viol("C11|boundary-grid-uneven|%s" % _law_sig(a), "sample_grid(n=%d) at %s: total-variation distance %.3f between cell fractions and boundary-measure "
+                         "shares on the %d^%d partition exceeds %.3f (worst cell %d: %.4f of the points vs %.4f of the measure)" % (
+                             n, th, d, m, D, bnd["tv_bgrid"], worst, emp[worst], shares[worst]))
+                elif (shares > 0).sum() >= 4:
+                    res["outcomes"].append(st + "|n=%d" % n)
+        elif law == "gridrows":
+            # ONE call of domain.sample_grid with two parameter rows: the block of every row is an even grid of ITS domain
+            if len(thetas) < 2 or th is not thetas[0]:
+                continue
+            tha, thb = thetas[0], thetas[-1]
+            prm2 = Bd.params_points({v: [tha[v], thb[v]] for v in tha})
+            n = 100 if D < 3 else 200
+            S = sample(lambda: Bd.build_tp(a).sample_grid(n=n, params=prm2))
+            if S is None or len(S) != 2 * n or S.as_tensor.dim() != 2:
+                continue        # refusals / other counts are C01's and C02's business
+            allp = np.concatenate([Bd.to_vals(S)[v] for v in order], 1)
+            for ri, thr_ in enumerate((tha, thb)):
+                pts = allp[ri * n:(ri + 1) * n]
+                rb = G.ref_box(a, vals_of_theta(thr_, 1))[0]
+                ex = rb[:, 1] - rb[:, 0]
+                pb = np.stack([rb[:, 0] - 0.0137 * ex, rb[:, 1] + 0.0291 * ex], 1)
+                m = 4 if D <= 2 else 2
+                shares = solid_shares(a, thr_, pb, m, sub=24 if D <= 2 else 16)
+                d, emp = tv(pts, pb, m, shares)
+                res["evals"] += len(pts)
+                tvs.append(round(d, 4))
+                res.setdefault("tvlist", []).append((round(d, 4), name + "|row%d" % ri, str(thr_)))
+                if d > bnd["tv_grid"]:
+                    worst = int(np.argmax(np.abs(emp - shares)))
+                    viol("C11|grid-uneven|rows|%s" % _law_sig(a), "sample_grid(n=%d) called with the two parameter rows %s and %s: the block of row %d has total-variation "
+                         "distance %.3f to the measure shares of its own domain (worst cell %d: %.4f of the points vs %.4f of the measure)" % (
+                             n, tha, thb, ri, d, worst, emp[worst], shares[worst]))
+                elif (shares > 0).sum() >= 4:
+                    res["outcomes"].append(st + "|row%d" % ri)
         elif law == "gauss":
             ctr = 0.5 * (rbox[:, 0] + rbox[:, 1]) + 0.15 * (rbox[:, 1] - rbox[:, 0])
             std = float(0.3 * (rbox[:, 1] - rbox[:, 0]).max())
